@@ -548,8 +548,8 @@ def _column_values(fn_node, loop):
                 return copy.deepcopy(gcols.get(e.attr, ast.Name(id=f"COL_{e.attr}", ctx=ast.Load())))
             if isinstance(e, ast.Name) and e.id in rowvars:
                 return rowvars[e.id]
-            if isinstance(e, ast.Call) and call_name(e) == "int" and len(e.args) == 1:
-                return ast.Call(func=ast.Name(id="int", ctx=ast.Load()), args=[val(e.args[0])], keywords=[])
+            if isinstance(e, ast.Call) and isinstance(e.func, ast.Name) and e.func.id in ("int", "ord") and len(e.args) == 1 and not e.keywords:
+                return ast.Call(func=ast.Name(id=e.func.id, ctx=ast.Load()), args=[val(e.args[0])], keywords=[])
             return e
         return val(st.targets[0].value.slice), val(st.targets[0].slice), val(st.value)
     return {"cols": cols, "gcols": gcols, "cell": cell}
@@ -651,7 +651,9 @@ def rule_r7(ctx) -> List[R.Inst]:
         c0 = colv
         while isinstance(c0, ast.Call) and call_name(c0) == "int" and len(c0.args) == 1:
             c0 = c0.args[0]
-        if unparse(c0) == "COL_column" and unparse(val) == "COL_char" and (truncated or formula_ok):
+        # (a grid of bytearray rows holds the symbol's code: lines[row][column] = ord(symbol))
+        byte_grid = any(isinstance(n, ast.Assign) and unparse(n.targets[0]) == "lines" and "bytearray(" in unparse(n.value) for n in ast.walk(loop))
+        if unparse(c0) == "COL_column" and (unparse(val) == "COL_char" or (byte_grid and unparse(val) == "ord(COL_char)")) and (truncated or formula_ok):
             insts.append(R.ok(rid, "cell-store", file, st[0].lineno, idiom="lines[row][column] = symbol"))
         else:
             insts.append(R.viol(rid, "cell-store", file, st[0].lineno, "each object is stored at lines[its row][its column]",
@@ -661,8 +663,13 @@ def rule_r7(ctx) -> List[R.Inst]:
     build = " ; ".join([unparse(r.value) for r in rows] +
                        [unparse(l_.iter) + " : " + unparse(x.args[0]) for l_ in ast.walk(loop) if isinstance(l_, ast.For)
                         for x in ast.walk(l_) if isinstance(x, ast.Call) and call_name(x) == "append" and unparse(x.func.value) == "lines" and x.args])
-    if rows and "range(keys)" in build and "range(den_max)" in build:
+    import re as _re
+    # the cells of a row: one per range(keys), or a one-cell row repeated `keys` times ("0" * keys, [c] * keys, bytearray(b"0" * keys))
+    width_keys = "range(keys)" in build or _re.search(r"(?:b?'0'|\[b?'0'\])\s*\*\s*keys\b|\bkeys\s*\*\s*(?:b?'0'|\[b?'0'\])", build) is not None
+    if rows and width_keys and "range(den_max)" in build:
         insts.append(R.ok(rid, "grid", file, rows[0].lineno, idiom="den_max rows of `keys` cells"))
+    elif rows and "range(den_max)" in build and "range(keys)" not in build and build.count("range(") == 1:
+        insts.append(R.undec(rid, "grid", file, rows[0].lineno, f"den_max rows; how wide a row is was not recognised: {build[:80]}"))
     elif rows and "range(" not in unparse(rows[0].value) and "range(" not in build:
         insts.append(R.undec(rid, "grid", file, rows[0].lineno, "how the grid of a measure is built was not recognised"))
     else:
@@ -696,8 +703,14 @@ def rule_r6(ctx) -> List[R.Inst]:
     # rows and padding use that same width
     uses = [n for n in ast.walk(wr.node) if isinstance(n, ast.Call) and isinstance(n.func, ast.Name) and n.func.id == "range" and
             n.args and unparse(n.args[0]) == "keys"]
-    lits = [n for n in ast.walk(wr.node) if isinstance(n, ast.Constant) and isinstance(n.value, str) and set(n.value) == {"0"} and
+    lits = [n for n in ast.walk(wr.node) if isinstance(n, ast.Constant) and isinstance(n.value, (str, bytes)) and set(n.value) in ({"0"}, {48}) and
             len(n.value) > 1]
+    # (a one-cell row repeated: "0" * keys, b"0" * keys, ["0"] * keys)
+    uses += [n for n in ast.walk(wr.node) if isinstance(n, ast.BinOp) and isinstance(n.op, ast.Mult) and
+             any(isinstance(x, ast.Name) and x.id == "keys" for x in (n.left, n.right)) and
+             any((isinstance(x, ast.Constant) and x.value in ("0", b"0")) or
+                 (isinstance(x, ast.List) and len(x.elts) == 1 and isinstance(x.elts[0], ast.Constant) and x.elts[0].value in ("0", b"0"))
+                 for x in (n.left, n.right))]
     if uses and not lits:
         insts.append(R.ok(rid, "row-construction", file, uses[0].lineno, idiom="rows are ['0'] * keys"))
     elif lits:
